@@ -15,7 +15,7 @@ from vf.sem import pyeval
 ID = "C05"
 RULE = (
     "Generated modules with 1-3 helpers (def, def with docstring, name = lambda, lambda handed through a call, def built by a factory with free "
-    "names, defs that are NOT a single return (annotated assignment / two statements) or have a keyword-only parameter (def and lambda helpers), positional-only parameters (a `/` in the parameter list); 1-3 parameters of kind "
+    "names, defs that are NOT a single return (annotated assignment / two statements) or have a keyword-only parameter (def and lambda helpers), positional-only parameters (a `/` in the parameter list), decorated helpers whose wrapper changes the result and bound methods (their source is not what they do); 1-3 parameters of kind "
     "number / sequence / element, optional defaults) whose bodies are drawn from: a bare parameter, the second parameter, "
     "unary/arithmetic/conditional over parameters, attribute of a parameter, a constant of the module, nested lambdas and comprehensions re-using a "
     "parameter name, an explicitly called inner lambda, calls to earlier helpers (1-3 deep), tuples; called from a lambda "
@@ -159,6 +159,10 @@ def _case(draw):
         slash = draw(st.integers(1, n)) if draw(st.integers(0, 5)) == 0 else None
         if style == "def" and want == "N" and closure is None and draw(st.integers(0, 7)) == 0:
             style = "lambda-kwonly"  # a recoverable lambda helper with a defaulted keyword-only parameter
+        elif style == "def" and want == "N" and closure is None and slash is None and draw(st.integers(0, 7)) == 0:
+            # helpers whose SOURCE is not what they do: a decorated function (functools.wraps wrapper changes the result), a bound
+            # method (its self is an object): inlining the text that inspect finds would compute something else
+            style = draw(st.sampled_from(["def-wrapped", "bound-method"]))
         helpers.append({"name": f"h{i}", "style": style, "params": params, "body": body, "ret": want, "closure": closure, "slash": slash})
     p = draw(st.sampled_from(["e", "e", "j", "a", "x"]))
     inner = draw(st.sampled_from(["j", "a", "x", "b", "v"]))
@@ -266,6 +270,11 @@ def module_text(case):
             lines.append(f"def {h['name']}({ps}):\n    t_ = {h['body']}\n    return t_ * 2")
         elif h["style"] == "lambda-kwonly":
             lines.append(f"{h['name']} = _keep(lambda {ps}, *, kw_=3: ({h['body']}) + kw_)")
+        elif h["style"] == "def-wrapped":
+            lines.append(f"def _deco_{h['name']}(fn):\n    import functools\n    @functools.wraps(fn)\n    def w(*a, **k):\n        return fn(*a, **k) + 1000\n    return w\n"
+                         f"@_deco_{h['name']}\ndef {h['name']}({ps}):\n    return {h['body']}")
+        elif h["style"] == "bound-method":
+            lines.append(f"class _K_{h['name']}:\n    k_ = 500\n    def m(self, {ps}):\n        return ({h['body']}) + self.k_\n{h['name']} = _K_{h['name']}().m")
         elif h["style"] == "def-kwonly":
             lines.append(f"def {h['name']}({ps}, *, kw_=3):\n    return ({h['body']}) + kw_")
         elif h.get("closure"):
